@@ -66,6 +66,9 @@ RECIPES = {
     'global': {'offwidth': '64', 'offheight': '64'},
     'quality': {'shadowsize': '16', 'offsamples': '0'},
     'composite_geom': {'type': 'capsule', 'size': '0.01 0.02'},
+    # count > 1 around a cable composite runs into two memory errors of the attach code (reported findings); most documents
+    # stay away from them so that the native worker is not restarted hundreds of times per run (process creation is slow here)
+    'replicate': {'count': '1'},
     'config': {'value': '1'},
     'dcmotor': {'motorconst': '0.05', 'resistance': '1', 'thermal': None, 'lugre': None, 'controller': None,
                 'nominal': None, 'saturation': None, 'inductance': None, 'cogging': None, 'input': None},
